@@ -255,3 +255,84 @@ def ob_expiry_seq(exp: int, t1: int, t2: int, t3: int) -> bool:
 
 def confirm_expiry_seq(exp, t1, t2, t3):
     return not _expiry_seq(exp, t1, t2, t3)
+
+
+# ---- histories of several clients through the real middleware (real clock, real jars)
+def _history(ops, expiry_kind):
+    """ops: ints decoded as client = o % 2, op = o // 2: 0 set key, 1 read, 2 delete key, 3 log out (set_expires(NOW)), 4 clear"""
+    from clastic import Application
+    from werkzeug.wrappers import Response
+    import json as _json
+    state = {'op': 1, 'n': 0}
+
+    def ep(cookie):
+        op = state['op']
+        if op == 0:
+            state['n'] += 1
+            cookie['k'] = state['n']
+        elif op == 2:
+            cookie.pop('k', None)
+        elif op == 3:
+            cookie.set_expires()
+        elif op == 4:
+            cookie.clear()
+        return Response(_json.dumps(dict((k, v) for k, v in cookie.items() if k != '_expires'), sort_keys=True))
+    exp = [CK.SESSION, CK.NEVER, 3600][expiry_kind]
+    app = Application([('/', ep)], middlewares=[SignedCookieMiddleware(secret_key=b'key', expiry=exp)])
+    clients = [app.get_local_client(), app.get_local_client()]
+    model = [{}, {}]
+    for o in ops:
+        c, op = o % 2, o // 2
+        state['op'] = op
+        resp = clients[c].get('/')
+        if resp.status_code != 200:
+            return False
+        if op == 0:
+            model[c]['k'] = state['n']
+        elif op == 2:
+            model[c].pop('k', None)
+        elif op in (3, 4):
+            model[c] = {}
+        # what the NEXT request of each client sees must be exactly what it stored
+        for cc in (0, 1):
+            state['op'] = 1
+            seen = _json.loads(clients[cc].get('/').get_data(True))
+            if seen != model[cc]:
+                return False
+    return True
+
+
+def ob_history(o0: int, o1: int, o2: int, expiry_kind: int) -> bool:
+    with untraced():
+        return _history([o0, o1, o2], expiry_kind)
+
+
+def confirm_history(o0, o1, o2, expiry_kind):
+    return not _history([o0, o1, o2], expiry_kind)
+
+
+SERVER_KEYS = [b'key', 'text-key', '\u043a\u043b\u044e\u0447', 'cl\u00e9', b'\xff\x00k']
+FORGE_KEYS = [b'other', b'????', b'cl?', '???', b'', 'text-ke']
+
+
+def _foreign_key(sk_i, fk_i):
+    """a cookie signed with ANOTHER key is presented to an application: it must see an empty cookie"""
+    from clastic import Application
+    from werkzeug.wrappers import Response
+    from werkzeug.test import EnvironBuilder
+    sk, fk = SERVER_KEYS[sk_i], FORGE_KEYS[fk_i]
+    forged = JSONCookie({'user': 'admin'}, fk).serialize().decode('ascii')
+    app = Application([('/', lambda cookie: Response('user=%s' % cookie.get('user')))], middlewares=[SignedCookieMiddleware(secret_key=sk)])
+    env = EnvironBuilder(path='/').get_environ()
+    env['HTTP_COOKIE'] = 'clastic_cookie="%s"' % forged.replace('"', '')
+    resp = Response.from_app(app, env)
+    return resp.status_code == 200 and resp.get_data() == b'user=None'
+
+
+def ob_foreign_key(sk_i: int, fk_i: int) -> bool:
+    with untraced():
+        return _foreign_key(sk_i, fk_i)
+
+
+def confirm_foreign_key(sk_i, fk_i):
+    return not _foreign_key(sk_i, fk_i)
